@@ -1458,6 +1458,14 @@ private:
     M& m_m;
 };
 
+// ---------------------------------------------------------------- this_thread (scheduling hints have no effect on the model)
+namespace this_thread
+{
+inline void yield() noexcept {}
+template<class D>
+inline void sleep_for(const D&) {}
+} // namespace this_thread
+
 // ---------------------------------------------------------------- atomic
 enum memory_order
 {
